@@ -107,6 +107,13 @@ func (c *Cluster) checkC02(n *SimNode, full bool) {
 		if d == nil {
 			continue
 		}
+		// cooperative fault point: a persistent node's block cache may evict any
+		// block at any time (that is all a smaller cache size does); the read
+		// below is then served from the database
+		if bs, ok := n.store.(*hg.BadgerStore); ok && i < last-1 && c.inner.Bool(0.15) {
+			bs.SimEvictBlock(i)
+			c.stats.fault("block-cache-eviction")
+		}
 		blk, err := n.node.GetBlock(i)
 		if err != nil {
 			c.stats.probe("stored-block-unavailable")
